@@ -418,8 +418,8 @@ func (s *Sink) Handle(point string, args ...interface{}) {
 		if req, ok := args[2].(proxycore.Request); ok {
 			if _, wrapped := proxycore.VerifUnwrapRequest(req); wrapped {
 				if ca, st, ok := s.reqKey(req); ok {
-					_, local := hostOfConn(args[0].(*proxycore.ClientConn))
-					s.T.Emit("H.prepstore", "caddr", ca, "stream", st, "ord", s.reqOrdinal(req), "local", local, "bstream", int(args[1].(int16)))
+					host, local := hostOfConn(args[0].(*proxycore.ClientConn))
+					s.T.Emit("H.prepstore", "caddr", ca, "stream", st, "ord", s.reqOrdinal(req), "host", host, "local", local, "bstream", int(args[1].(int16)))
 				}
 			}
 		}
